@@ -494,11 +494,13 @@ PROPS["C19"] = dict(
           "requests (with/without nack, with/without source address, repeated requester numbers, 1-700 ms apart) whose target answers in time / twice / late / "
           "never / with a foreign number: fresh sequence number towards the target, exactly one relayed ack under the requester's number 100.4 ms after the "
           "request, or exactly one nack at the probe timeout iff requested, nothing else. send failures: the node's health score is first raised by 0-3 refuted accusations; each of 1-5 probes of the subject is answered, or its ping cannot be sent because of a local error (the score does not move, nobody is asked to help, nobody is suspected) or because the transport blames the peer (helpers are asked at once, the probe fails at its deadline and costs health by the nack rule); GetHealthScore equals the model after every probe. cleanup (overlay hook): no pending handler survives its deadline. "
-          "non-trivial = probe with a late, foreign or duplicate acknowledgement / any relay request / handlers observed pending"),
+          "User pings (Ping(), same acknowledgement table): 1-6 calls whose target answers with the right number early, late, from a third party, with another / the previous call's number, with a nack, or not at all, with unrelated acknowledgements in between: success iff the own number arrived within ProbeTimeout, round trip as sent, return by the deadline, health untouched. "
+          "non-trivial = probe with a late, foreign or duplicate acknowledgement / any relay request / handlers observed pending / a user ping that is not simply answered"),
     tests=[
         dict(name="sendfail", run="^TestProbeSendFailure$", quick=dict(shards=4, checks=150, timeout=600), thorough=dict(shards=8, checks=8000, timeout=3000)),
         dict(name="prober", run="^TestProberCorrelation$", quick=dict(shards=10, checks=150, timeout=600), thorough=dict(shards=10, checks=6000, timeout=3400)),
         dict(name="relay", run="^TestRelay$", quick=dict(shards=3, checks=700, timeout=600), thorough=dict(shards=3, checks=30000, timeout=3000)),
+        dict(name="userping", run="^TestUserPing$", quick=dict(shards=1, checks=300, timeout=600), thorough=dict(shards=2, checks=10000, timeout=3000)),
         dict(name="pending", run="^TestPendingAcksDiscarded$", tags="vfhook", quick=dict(shards=3, checks=150, timeout=600), thorough=dict(shards=3, checks=5000, timeout=3000)),
     ],
     assumptions=PUPPET_ASSUMPTIONS + [
